@@ -532,9 +532,43 @@ def gen_walk(r, idx):
             "classes": arg_classes([start, step]), "split": r.random() < 0.5}
 
 
+def gen_near_literal(r, idx):
+    """A comparison (or + - *) of a *run-time* operand with an integer literal that lies within one of it: the function is
+    mapped over a list (so that the operand is not a compile-time constant and the body is compiled for its own sake - natively,
+    when the unit is a module - with its literal-operand specialisation).  Operands: k +- 1/2, k +- 2^-40, the double k, k,
+    k +- 1 as fixnum, the ratio k + 1/3, a bignum."""
+    op = r.choice(["<", "<=", ">", ">=", "=", "<", "<=", "+", "-", "*"])
+    k = r.choice([0, 0, 1, 2, -1, 3, 10, -7, 255, 2 ** 31, -(2 ** 31), 2 ** 53, 2 ** 62])
+    cands = [k + 0.5, k - 0.5, float(k), k, k + 1, k - 1, Fraction(3 * k + 1, 3), Fraction(3 * k - 1, 3), -0.5, 0.5, 2.5, -2.5,
+             k + 2.0 ** -40 if abs(k) < 2 ** 10 else float(k) + 1.0, 2 ** 70 + k, -0.0]
+    xs = [r.choice(cands) for _ in range(r.randint(2, 5))]
+    f = "n%d" % idx
+    side = r.choice(["R", "R", "L"])
+    body = "(%s x %s)" % (op, lit(k)) if side == "R" else "(%s %s x)" % (op, lit(k))
+    form = r.choice(["plain", "if", "plain"])
+    if form == "if" and op in ("<", "<=", ">", ">=", "="):
+        pre = "(define (%s x) (if %s 'yes 'no))" % (f, body)
+        conv = lambda v: Sym("yes" if v else "no")
+    else:
+        pre = "(define (%s x) %s)" % (f, body)
+        conv = lambda v: v
+    try:
+        vals = [conv(op_apply(op, [x, k] if side == "R" else [k, x])) for x in xs]
+    except (Skip, ZeroDivisionError, OverflowError):
+        raise Skip()
+    expr = "(map %s (list %s))" % (f, " ".join(lit(x) for x in xs))
+    return {"op": op, "shape": "near-literal/%s%s" % (side, "/if" if form == "if" else ""), "pre": [pre], "expr": expr,
+            "expected": "(L" + "".join(" " + canon(v) for v in vals) + ")", "classes": arg_classes(xs[:2]), "split": r.random() < 0.5}
+
+
 def gen_case(r, idx):
     if r.random() < 0.15:
         return gen_walk(r, idx)
+    if r.random() < 0.06:
+        try:
+            return gen_near_literal(r, idx)
+        except Skip:
+            pass
     ops = [o for o, _ in OPS]
     w = [OP_WEIGHT.get(o, 1) for o in ops]
     for _ in range(50):
@@ -594,6 +628,13 @@ def classify(expected, got):
     of one operation and anything else is still reported."""
     if isinstance(got, tuple):
         return got[1]
+    if expected.startswith("(L ") and isinstance(got, str) and got.startswith("(L "):
+        # a list of results (one function mapped over several operands): name the first element that differs
+        el, gl = expected[3:-1].split(" "), got[3:-1].split(" ")
+        if len(el) == len(gl):
+            for a, b in zip(el, gl):
+                if a != b:
+                    return classify(a, b)
     e, g = parse_canon_num(expected), parse_canon_num(got)
     if e is None or g is None:
         if expected in ("#t", "#f") and got in ("#t", "#f"):
